@@ -36,3 +36,7 @@ for nm, ty, n, tier in (("simple", "+", 6, "quick"), ("error", "-", 6, "thorough
       encodes=["RespParser::parse", "parse_frame", "parse_line", "leaf parsers"],
       bounds="%d bytes, first concrete '%s', rest symbolic; all split points 1..%d enumerated concretely inside the harness; unwind 8" % (n, ty, n - 1),
       stubs=FMT + CUT)
+for nm, ty in (("inline_p", "P"), ("simple", "+")):
+    K("c20_prefix_off_" + nm, "proto", ["C20", "C05"], tier="quick" if nm == "inline_p" else "thorough", timeout=1800,
+      desc="prefix lemma with a READ OFFSET: two consumed bytes in front of the input (position = 2, not yet compacted), input starting with '%s', every split point: the parser must look only at buffer[position..]" % ty,
+      encodes=["RespParser::parse", "parse_frame", "parse_line"], bounds="2 junk bytes + 6 input bytes (first concrete), all splits; unwind 9", stubs=FMT + CUT)
